@@ -125,27 +125,30 @@ Definition str_esc := s2z "esc".
 
 Definition bit_set (b mask : Z) : bool := negb (Z.land b mask =? 0).
 
+(* the body of KeyqueueTrie.read_mouse_info once three codes are available *)
+Definition x10_event (k0 k1 k2 : Z) : event :=
+  let b := k0 - 32 in
+  let x := (k1 - 33) mod 256 in
+  let y := (k2 - 33) mod 256 in
+  let prefix :=
+    (if bit_set b 4 then str_shift else []) ++
+    (if bit_set b 8 then str_meta else []) ++
+    (if bit_set b 16 then str_ctrl else []) ++
+    (if Z.shiftr (Z.land b MOUSE_MULTIPLE_CLICK_MASK) 9 =? 1 then str_double else []) ++
+    (if Z.shiftr (Z.land b MOUSE_MULTIPLE_CLICK_MASK) 9 =? 2 then str_triple else []) in
+  let button0 := Z.land b 64 / 64 * 3 + Z.land b 3 + 1 in
+  let '(action, button) :=
+    if Z.land b 3 =? 3 then (str_release, 0)
+    else if bit_set b MOUSE_RELEASE_FLAG then (str_release, button0)
+    else if bit_set b MOUSE_DRAG_FLAG then (str_drag, button0)
+    else if bit_set b MOUSE_MULTIPLE_CLICK_MASK then (str_click, button0)
+    else (str_press, button0) in
+  Mouse (prefix ++ str_mouse_sp ++ action) button x y.
+
 (* KeyqueueTrie.read_mouse_info *)
 Definition read_mouse_info (keys : list Z) (more : bool) : outcome (option (event * list Z)) :=
   match keys with
-  | k0 :: k1 :: k2 :: rest =>
-      let b := k0 - 32 in
-      let x := (k1 - 33) mod 256 in
-      let y := (k2 - 33) mod 256 in
-      let prefix :=
-        (if bit_set b 4 then str_shift else []) ++
-        (if bit_set b 8 then str_meta else []) ++
-        (if bit_set b 16 then str_ctrl else []) ++
-        (if Z.shiftr (Z.land b MOUSE_MULTIPLE_CLICK_MASK) 9 =? 1 then str_double else []) ++
-        (if Z.shiftr (Z.land b MOUSE_MULTIPLE_CLICK_MASK) 9 =? 2 then str_triple else []) in
-      let button0 := Z.land b 64 / 64 * 3 + Z.land b 3 + 1 in
-      let '(action, button) :=
-        if Z.land b 3 =? 3 then (str_release, 0)
-        else if bit_set b MOUSE_RELEASE_FLAG then (str_release, button0)
-        else if bit_set b MOUSE_DRAG_FLAG then (str_drag, button0)
-        else if bit_set b MOUSE_MULTIPLE_CLICK_MASK then (str_click, button0)
-        else (str_press, button0) in
-      OOk (Some (Mouse (prefix ++ str_mouse_sp ++ action) button x y, rest))
+  | k0 :: k1 :: k2 :: rest => OOk (Some (x10_event k0 k1 k2, rest))
   | _ => if more then OMore else OOk None           (* len(keys) < 3 *)
   end.
 
@@ -205,6 +208,27 @@ Definition py_int (s : list Z) : option Z :=
   | None => None
   end.
 
+(* the part of read_sgrmouse_info after the scan: value[:-1] = body, value[-1] = action.
+   None = `except ValueError: return None` *)
+Definition sgr_event (body : list Z) (action : Z) : outcome (option event) :=
+  match map py_int (split_on 59 body) with
+  | [Some b; Some x; Some y] =>
+      let prefix :=
+        (if bit_set b 4 then str_shift else []) ++
+        (if bit_set b 8 then str_meta else []) ++
+        (if bit_set b 16 then str_ctrl else []) in
+      let wheel_used := Z.shiftr (Z.land b 64) 6 in
+      let button := wheel_used * 3 + Z.land b 3 + 1 in
+      let x := x - 1 in
+      let y := y - 1 in
+      if action =? 77 then
+        OOk (Some (Mouse (prefix ++ str_mouse_sp ++ (if bit_set b MOUSE_DRAG_FLAG then str_drag else str_press)) button x y))
+      else if action =? 109 then
+        OOk (Some (Mouse (prefix ++ str_mouse_sp ++ str_release) button x y))
+      else OErr ValueError                          (* raise ValueError("Unknown mouse action") *)
+  | _ => OOk None
+  end.
+
 (* KeyqueueTrie.read_sgrmouse_info *)
 Definition read_sgrmouse_info (keys : list Z) (more : bool) : outcome (option (event * list Z)) :=
   match keys with
@@ -213,23 +237,11 @@ Definition read_sgrmouse_info (keys : list Z) (more : bool) : outcome (option (e
       match sgr_scan keys with
       | None => if more then OMore else OOk None    (* not found_m *)
       | Some (body, action, rest) =>
-          match map py_int (split_on 59 body) with
-          | [Some b; Some x; Some y] =>
-              let prefix :=
-                (if bit_set b 4 then str_shift else []) ++
-                (if bit_set b 8 then str_meta else []) ++
-                (if bit_set b 16 then str_ctrl else []) in
-              let wheel_used := Z.shiftr (Z.land b 64) 6 in
-              let button := wheel_used * 3 + Z.land b 3 + 1 in
-              let x := x - 1 in
-              let y := y - 1 in
-              if action =? 77 then
-                OOk (Some (Mouse (prefix ++ str_mouse_sp ++ (if bit_set b MOUSE_DRAG_FLAG then str_drag else str_press))
-                                 button x y, rest))
-              else if action =? 109 then
-                OOk (Some (Mouse (prefix ++ str_mouse_sp ++ str_release) button x y, rest))
-              else OErr ValueError                  (* raise ValueError("Unknown mouse action") *)
-          | _ => OOk None                           (* except ValueError: return None *)
+          match sgr_event body action with
+          | OOk (Some ev) => OOk (Some (ev, rest))
+          | OOk None => OOk None
+          | OMore => OMore
+          | OErr e => OErr e
           end
       end
   end.
